@@ -3,10 +3,12 @@
 package client
 
 import (
+	"context"
 	"crypto/sha256"
 	"fmt"
 	"math/rand"
 	"sync"
+	"sync/atomic"
 	"testing"
 	"time"
 
@@ -15,6 +17,7 @@ import (
 	"github.com/tokenized/pkg/expanded_tx"
 	"github.com/tokenized/pkg/merchant_api"
 	"github.com/tokenized/pkg/wire"
+	"github.com/tokenized/spynode/internal/verifhook"
 	"github.com/tokenized/spynode/internal/verifkit"
 )
 
@@ -23,19 +26,19 @@ import (
 const c16Timeout = 400 * time.Millisecond
 
 type c16Call struct {
-	Kind   string `json:"kind"`
-	Seed   uint32 `json:"seed"`
-	Action string `json:"action"` // answer twice reject never late
-	DelayMS int   `json:"delay_ms"`
-	StartMS int   `json:"start_ms,omitempty"` // the call is issued this long after the others
+	Kind    string `json:"kind"`
+	Seed    uint32 `json:"seed"`
+	Action  string `json:"action"` // answer twice reject never late
+	DelayMS int    `json:"delay_ms"`
+	StartMS int    `json:"start_ms,omitempty"` // the call is issued this long after the others
 
 	key      bitcoin.Hash32
 	height   int
 	start    time.Duration
 	end      time.Duration
 	err      error
-	okValue  bool   // returned value is the one scripted for this key
-	valueErr string // description when not
+	okValue  bool          // returned value is the one scripted for this key
+	valueErr string        // description when not
 	wroteAt  time.Duration // when the server wrote the (first) answer; 0 = never
 }
 
@@ -59,10 +62,10 @@ func c16Rejectable(kind string) bool { return kind != "GetHeaders" && kind != "G
 
 // c16Server answers requests of one connection according to the round's script.
 type c16Script struct {
-	mu      sync.Mutex
-	byKey   map[string]*c16Call // request key -> scripted call
-	wg      sync.WaitGroup
-	noise   int
+	mu                sync.Mutex
+	byKey             map[string]*c16Call // request key -> scripted call
+	wg                sync.WaitGroup
+	noise             int
 	noZeroHeightNoise bool // a call for height 0 is scripted: an unsolicited push with request height 0 would be indistinguishable from its answer
 }
 
@@ -330,12 +333,43 @@ func TestVerif_C16(t *testing.T) {
 	rep.Assumptions = []string{"RequestTimeout 400 ms; an answered call that still times out is only judged when the answer was written >120 ms before the deadline and the round was re-run on its own (first occurrence is inconclusive)", "time-out lower bound uses one monotonic clock in the test process"}
 	defer rep.Write()
 
+	// in two rounds of five the goroutine that owns the pending-request list is slowed down (1 ms per
+	// iteration, hook client.requests.iteration): registrations and responses then wait in its
+	// channels together, as they do on a loaded machine
+	// One round in ten stalls that goroutine once for longer than the request time-out right after
+	// the first registration, with every call unanswered: registrations and deregistrations then
+	// wait together, and the second wave asks for the same keys again.
+	var slowRequests, stallOnce int32
+	verifhook.Set("client.requests.iteration", func(ctx context.Context, site string) {
+		if atomic.LoadInt32(&slowRequests) != 0 {
+			time.Sleep(time.Millisecond)
+		}
+		if atomic.CompareAndSwapInt32(&stallOnce, 2, 0) {
+			time.Sleep(c16Timeout + 150*time.Millisecond)
+		}
+		atomic.CompareAndSwapInt32(&stallOnce, 1, 2) // armed: the next iteration stalls
+	})
+	defer func() {
+		rep.Event("hook_hits:client.requests.iteration", verifhook.Hits("client.requests.iteration"))
+		verifhook.Set("client.requests.iteration", nil)
+	}()
+
 	n := verifkit.N(160, 10000)
 	for ci := 0; ci < n; ci++ {
 		if !verifkit.Mine(ci) {
 			continue
 		}
 		r := verifkit.Rand("C16", ci)
+		stall := ci%10 == 4
+		slow := ci%5 == 2 || (ci%5 == 4 && !stall)
+		margin := 120 * time.Millisecond
+		if slow {
+			atomic.StoreInt32(&slowRequests, 1)
+			margin = 220 * time.Millisecond
+			rep.Event("rounds_with_slow_request_loop", 1)
+		} else {
+			atomic.StoreInt32(&slowRequests, 0)
+		}
 		if ci%8 == 7 {
 			c16Outputs(rep, ci, r)
 			continue
@@ -421,6 +455,12 @@ func TestVerif_C16(t *testing.T) {
 				}
 			}
 		}
+		if stall {
+			for _, c := range calls {
+				c.Action, c.StartMS, c.DelayMS = "never", 0, 0
+			}
+			rep.Event("rounds_with_stalled_request_loop", 1)
+		}
 		noiseRand := rand.New(rand.NewSource(r.Int63()))
 		e, err := newCEnv(cOpt{connType: connType, requestTimeout: c16Timeout, messageTimeout: 2 * time.Second,
 			handshakeTO: 2 * time.Second, retryDelay: 30 * time.Millisecond, autoReady: true},
@@ -445,6 +485,9 @@ func TestVerif_C16(t *testing.T) {
 			e.stop(3 * time.Second)
 			continue
 		}
+		if stall {
+			atomic.StoreInt32(&stallOnce, 1)
+		}
 		var wg sync.WaitGroup
 		for _, c := range calls {
 			wg.Add(1)
@@ -466,6 +509,7 @@ func TestVerif_C16(t *testing.T) {
 			continue
 		}
 		script.wg.Wait()
+		atomic.StoreInt32(&stallOnce, 0)
 		// second wave: keys of the first wave that were rejected or never answered are asked for
 		// again (a retry); this time the server answers
 		var calls2 []*c16Call
@@ -509,60 +553,60 @@ func TestVerif_C16(t *testing.T) {
 			return map[string]interface{}{"connection_type": connType.String(), "calls": w, "unsolicited_sent": script.noise}
 		}
 		judge := func(calls []*c16Call) {
-		for _, c := range calls {
-			fp[c.Kind+"/"+c.Action]++
-			if c.Action != "answer" {
-				plain = false
-			}
-			rep.Event("calls:"+c.Kind, 1)
-			rep.Event("action:"+c.Action, 1)
-			elapsed := c.end - c.start
-			isTimeout := c.err != nil && errors.Cause(c.err) == ErrTimeout
-			switch c.Action {
-			case "answer", "twice":
-				if c.err == nil && c.okValue {
-					continue
+			for _, c := range calls {
+				fp[c.Kind+"/"+c.Action]++
+				if c.Action != "answer" {
+					plain = false
 				}
-				if c.valueErr != "" {
-					rep.Finding(ci, "C16/"+c.Kind+"/wrong-response", c.valueErr, witness())
-				} else if isTimeout {
-					// the scripted answer was written; was there ample time to route it?
-					if c.wroteAt > 0 && c.wroteAt-c.start < c16Timeout-120*time.Millisecond {
-						if verifkit.OnlyCase() >= 0 {
-							rep.Finding(ci, "C16/"+c.Kind+"/answered-call-timed-out", fmt.Sprintf("%s: the server wrote the answer %v after the call started, the call still failed with Timeout after %v", c.Kind, (c.wroteAt - c.start).Round(time.Millisecond), elapsed.Round(time.Millisecond)), witness())
+				rep.Event("calls:"+c.Kind, 1)
+				rep.Event("action:"+c.Action, 1)
+				elapsed := c.end - c.start
+				isTimeout := c.err != nil && errors.Cause(c.err) == ErrTimeout
+				switch c.Action {
+				case "answer", "twice":
+					if c.err == nil && c.okValue {
+						continue
+					}
+					if c.valueErr != "" {
+						rep.Finding(ci, "C16/"+c.Kind+"/wrong-response", c.valueErr, witness())
+					} else if isTimeout {
+						// the scripted answer was written; was there ample time to route it?
+						if c.wroteAt > 0 && c.wroteAt-c.start < c16Timeout-margin {
+							if verifkit.OnlyCase() >= 0 {
+								rep.Finding(ci, "C16/"+c.Kind+"/answered-call-timed-out", fmt.Sprintf("%s: the server wrote the answer %v after the call started, the call still failed with Timeout after %v", c.Kind, (c.wroteAt-c.start).Round(time.Millisecond), elapsed.Round(time.Millisecond)), witness())
+							} else {
+								rep.Inconc(ci, c.Kind+" answered but timed out (re-run alone)")
+							}
 						} else {
-							rep.Inconc(ci, c.Kind+" answered but timed out (re-run alone)")
+							rep.Event("answered_late_under_load", 1)
 						}
 					} else {
-						rep.Event("answered_late_under_load", 1)
+						rep.Finding(ci, "C16/"+c.Kind+"/unexpected-error", fmtErr(c.err), witness())
 					}
-				} else {
-					rep.Finding(ci, "C16/"+c.Kind+"/unexpected-error", fmtErr(c.err), witness())
-				}
-			case "reject":
-				re, ok := errors.Cause(c.err).(RejectError)
-				if ok && re.Code == RejectCode(2+c.Seed%3) && re.Description == "rej-"+c.key.String()[:12] {
-					continue
-				}
-				if isTimeout {
-					if c.wroteAt > 0 && c.wroteAt-c.start < c16Timeout-120*time.Millisecond {
-						if verifkit.OnlyCase() >= 0 {
-							rep.Finding(ci, "C16/"+c.Kind+"/reject-not-delivered", "scripted reject was written in time, the call timed out", witness())
-						} else {
-							rep.Inconc(ci, c.Kind+" rejected but timed out (re-run alone)")
+				case "reject":
+					re, ok := errors.Cause(c.err).(RejectError)
+					if ok && re.Code == RejectCode(2+c.Seed%3) && re.Description == "rej-"+c.key.String()[:12] {
+						continue
+					}
+					if isTimeout {
+						if c.wroteAt > 0 && c.wroteAt-c.start < c16Timeout-margin {
+							if verifkit.OnlyCase() >= 0 {
+								rep.Finding(ci, "C16/"+c.Kind+"/reject-not-delivered", "scripted reject was written in time, the call timed out", witness())
+							} else {
+								rep.Inconc(ci, c.Kind+" rejected but timed out (re-run alone)")
+							}
 						}
+						continue
 					}
-					continue
-				}
-				rep.Finding(ci, "C16/"+c.Kind+"/reject-wrong", fmt.Sprintf("scripted reject code=%d text=rej-%s surfaced as %s", 2+c.Seed%3, c.key.String()[:12], fmtErr(c.err)), witness())
-			case "never", "late":
-				if !isTimeout {
-					rep.Finding(ci, "C16/"+c.Kind+"/unanswered-call-returned", fmt.Sprintf("call never answered within the time-out returned err=%s okValue=%v", fmtErr(c.err), c.okValue), witness())
-				} else if elapsed < c16Timeout {
-					rep.Finding(ci, "C16/"+c.Kind+"/timeout-too-early", fmt.Sprintf("timed out after %v, configured %v", elapsed, c16Timeout), witness())
+					rep.Finding(ci, "C16/"+c.Kind+"/reject-wrong", fmt.Sprintf("scripted reject code=%d text=rej-%s surfaced as %s", 2+c.Seed%3, c.key.String()[:12], fmtErr(c.err)), witness())
+				case "never", "late":
+					if !isTimeout {
+						rep.Finding(ci, "C16/"+c.Kind+"/unanswered-call-returned", fmt.Sprintf("call never answered within the time-out returned err=%s okValue=%v", fmtErr(c.err), c.okValue), witness())
+					} else if elapsed < c16Timeout {
+						rep.Finding(ci, "C16/"+c.Kind+"/timeout-too-early", fmt.Sprintf("timed out after %v, configured %v", elapsed, c16Timeout), witness())
+					}
 				}
 			}
-		}
 		}
 		judge(calls)
 		judge(calls2)
